@@ -60,6 +60,22 @@ def run_property(prop_id, tier, root=None, out=sys.stdout):
             from . import selftest
 
             extra["selftest"] = selftest.run(prop_id, mod, prog, ctx)
+            # independent cross-check of the guard-fact engine on every function this property consulted
+            tot = {"functions": 0, "paths": 0, "node_visits": 0, "mismatches": [], "truncated": []}
+            for q in sorted(ctx.functions_consulted):
+                if q not in prog.funcs:
+                    continue
+                n_p, n_c, mm, tr = ctx.cfg(prog.funcs[q]).replay_paths(prog)
+                tot["functions"] += 1
+                tot["paths"] += n_p
+                tot["node_visits"] += n_c
+                tot["mismatches"] += [list(m) for m in mm]
+                if tr:
+                    tot["truncated"].append(q)
+            extra["path_replay"] = tot
+            if tot["mismatches"]:
+                print("ANALYSIS-ERROR property=%s guard facts disagree with explicit path replay: %s" % (prop_id, tot["mismatches"][:3]), file=out)
+                return 2
             deep = getattr(mod, "thorough", None)
             if deep is not None:
                 deep(ctx)
@@ -105,6 +121,11 @@ def run_property(prop_id, tier, root=None, out=sys.stdout):
         print("  self-test: mutants applied=%d killed=%d inapplicable=%d; twins applied=%d silent=%d" % (
             st["mutants_applied"], st["mutants_killed"], st["mutants_inapplicable"], st["twins_applied"],
             st["twins_silent"]), file=out)
+        print("  self-test: whole-package benign rewrites silent=%d/%d %s" % (st["benign_rewrites_silent"], st["benign_rewrites_applied"],
+              {k: v for k, v in st["benign_rewrites"].items() if v != "silent"} or ""), file=out)
+        pr = extra.get("path_replay", {})
+        print("  path replay: %d functions, %d explicit paths, %d node visits, %d mismatches" % (
+            pr.get("functions", 0), pr.get("paths", 0), pr.get("node_visits", 0), len(pr.get("mismatches", []))), file=out)
         for m in st["missed"]:
             print("  self-test MISSED mutant %s (expected %s)" % (m["id"], m["expect"]), file=out)
         for m in st["noisy_twins"]:
